@@ -8,14 +8,22 @@ from . import error
 from . import utils
 
 
+def _first_error(args):
+    return next(a for a in args if isinstance(a, error.XLError))
+
+
 @dispatcher.register_for('AND')
 def AND(*args):
-    args = utils.iflatten(args)
+    args = utils.flatten(args)
+    if utils.any_is_error(args):
+        return _first_error(args)
     return all(args)
 
 
 @dispatcher.register_for('IF')
 def IF(test, then, otherwise):
+    if isinstance(test, error.XLError):
+        return test
     return then if test else otherwise
 
 
@@ -31,24 +39,32 @@ def IFNA(value, value_if_na):
 
 @dispatcher.register_for('NOT')
 def NOT(boolean):
+    if isinstance(boolean, error.XLError):
+        return boolean
     return not boolean
 
 
 @dispatcher.register_for('XOR')
 def XOR(*args):
-    args = utils.iflatten(args)
+    args = utils.flatten(args)
+    if utils.any_is_error(args):
+        return _first_error(args)
     result = sum(bool(a) for a in args)
     return bool(result & 1)
 
 
 @dispatcher.register_for('OR')
 def OR(*args):
-    args = utils.iflatten(args)
+    args = utils.flatten(args)
+    if utils.any_is_error(args):
+        return _first_error(args)
     return any(args)
 
 
 @dispatcher.register_for('SWITCH')
 def SWITCH(target_value, *args):
+    if isinstance(target_value, error.XLError):
+        return target_value
     if len(args) <= 1:
         return error.NOT_AVAILABLE
     argc = len(args)
@@ -64,6 +80,8 @@ def SWITCH(target_value, *args):
 @dispatcher.register_for('IFS')
 def IFS(*args):
     for pair in zip(args[::2], args[1::2]):
+        if isinstance(pair[0], error.XLError):
+            return pair[0]
         if pair[0]:
             return pair[1]
     return error.NOT_AVAILABLE
